@@ -86,6 +86,7 @@ type Exec struct {
 	errType   types.Type
 	pathCovers []string
 	lastInstr  string
+	hashOf     map[int]*Term
 	curInstr   ssa.Instruction
 	curFn      *ssa.Function
 	lastPanic  *goPanic
